@@ -16,6 +16,7 @@ structure StoreState where
   cur : List (Key × Val) := []                      -- live keys, sorted ascending
   readers : List (Nat × List (Key × Val)) := []
   prev : List (Key × Val) := []                     -- live keys before the last transaction
+  lastTxn : Bool := false                           -- the previous operation was a plain transaction
 
 def mapErase (m : List (Key × Val)) (k : Key) : List (Key × Val) := m.filter (fun p => p.1 != k)
 
@@ -45,11 +46,14 @@ def storeStep (st : StoreState) (ws : List String) : StoreState × String × Str
         | none => none
       | _, _ => none) (some st.cur)
     match apply with
-    | some m => same { st with cur := m, prev := st.cur } "ok"
+    | some m => same { st with cur := m, prev := st.cur, lastTxn := true } "ok"
     | none => same st "bad-op"
   -- the process dies while the last commit's record is half written (torn tail of the commit log);
   -- the store is reopened (the tail is cut by repair): that last transaction is gone, everything else stays
-  | ["crashtear", _] => same { st with cur := st.prev, readers := [] } "ok"
+  | ["crashtear", _] =>
+    -- (only meaningful right after a transaction: its record is the tail of the commit log)
+    if st.lastTxn then same { st with cur := st.prev, readers := [], lastTxn := false } "ok"
+    else same { st with readers := [] } "ok"
   | ["begin", r] =>
     match r.toNat? with
     | some r => same { st with readers := (r, st.cur) :: st.readers.filter (fun p => p.1 != r) } "ok"
@@ -108,4 +112,10 @@ def storeStep (st : StoreState) (ws : List String) : StoreState × String × Str
     | _ => same st "bad-op"
   | [] => same st "bad-op"
 
-def storeDriver : LineDriver := { σ := StoreState, init := {}, step := storeStep }
+def storeStep' (st : StoreState) (ws : List String) : StoreState × String × String :=
+  let (st', m, sp) := storeStep st ws
+  -- `lastTxn` survives only the transaction that set it
+  let keep := match ws with | "txn" :: _ => true | _ => false
+  ((if keep then st' else { st' with lastTxn := false }), m, sp)
+
+def storeDriver : LineDriver := { σ := StoreState, init := {}, step := storeStep' }
